@@ -408,6 +408,9 @@ inductive Thrown
   | errObj (capName capMsg : String) (curName curMsg : Option String)
   /-- any other object; `text` = result of its ToString (which runs `toString`/`valueOf`) -/
   | obj (text : String)
+  /-- an object whose [[Class]] is "Error" but which holds no `ottoError`: the seven prototype objects
+      (Error.prototype, TypeError.prototype, …); `text` = result of its ToString -/
+  | errClass (text : String)
 deriving Repr, DecidableEq
 
 /-- error.go:235-256 + :102 -/
@@ -415,6 +418,28 @@ def runErrorText : Thrown → String
   | .prim t => t                               -- errors.New(caught.string())
   | .errObj n m _ _ => format n m              -- &Error{vl}; Error() = format()
   | .obj t => t
+  | .errClass t => t                           -- no ottoError inside: falls through to errors.New(caught.string())
+
+/-- what every user of `catchPanic` (Run, Eval, Otto.Call/Get/Set, Value.Call/ToString/ToFloat/…/Export,
+    Object.Get/Set/Call/MarshalJSON) hands back for a thrown value that nothing caught: `none` = a nil error,
+    else (the error is an `*otto.Error`, its text).  Every arm of `case Value:` assigns `err`. -/
+def catchPanicErr : Thrown → Option (Bool × String)
+  | .prim t => some (false, t)
+  | .errObj n m _ _ => some (true, format n m)
+  | .obj t => some (false, t)
+  | .errClass t => some (false, t)
+
+/-- file/file.go `(*FileSet).Position(idx)`: the first file with `idx <= base + len(src)`; it hands `idx - base` to
+    `(*File).Position`, which subtracts the base once more.  `files` = (base, src) in the order of `AddFile`. -/
+def fileSetPosition : List (Int × Src) → Int → Option (Nat × Nat)
+  | [], _ => none
+  | (base, src) :: r, idx =>
+    if idx ≤ base + src.length then filePosition src base (idx - base) else fileSetPosition r idx
+
+/-- `(*FileSet).AddFile`: the bases of consecutive files (`nextBase` = last.base + len(last.src) + 1, first = 1) -/
+def addFiles : Int → List Src → List (Int × Src)
+  | _, [] => []
+  | base, s :: r => (base, s) :: addFiles (base + s.length + 1) r
 
 /-! ## error objects made with a message: constructors (with / without `new`) and `Otto.Make*Error` -/
 
